@@ -102,10 +102,15 @@ NA = {
  "C18": "static number theory about shipped literals (primality, orders, distinctness); nothing executes (DESIGN.md section 6)",
 }
 
+# claim texts as extended in round 9 (aborted calls, nested calls, address reservation, ...)
+TEXT_OVERRIDE = json.loads('{"C01": "Seeded deterministic simulation of two real nodes under an honest (delay/reorder/duplicate) network with 0-6 crash/recover cycles per node placed anywhere between start() and finish() (in 8% of the runs restarts of the whole simulated process with a freshly imported copy of the library and a neighbour session of the other flavour), swarm over all shipped sets, custom seeds, generated IntegerGroups and the library\'s Edwards code on toy curves, with edge entropy streams (scalars 0, 1, q-1, forced re-draws; all scalar pairs of tiny groups walked along the run index). Oracle needs no model: equal 32-byte keys, honest persist/restore never fails, or one of the two degenerate coincidences decided from the bytes on the wire. Runs of a chunk share one forked process; a violation that needs an earlier session\'s leftovers is replayed with that session as prelude. Sampling, not proof. 15% of the runs carry a second concurrent honest pair in the same process (judged pair by pair); in 12% library calls are aborted at an arbitrary library line (injected MemoryError/KeyboardInterrupt) and the application falls back on its durable state.", "C02": "Same simulated deployment with 1-3 configuration differences (password, identities incl. swaps and boundary shifts, near-miss strings such as transcoded / NUL-extended / separator-joined identities, parameter set incl. empty and near-miss seeds) and/or symbolic in-flight faults on one or both messages (18 fault kinds incl. coordinated two-sided strategies, crash/restore in between). Oracle: no pair of finish() calls may return equal keys unless both ends had identical views. Found the Ed25519 decoding defect (now fixed in /repo) on the pinned tree. Framing tails (LF, CRLF, NUL, \'=\') are part of the extension faults; parameter-seed differences are also run in a multi-tenant process with per-session parameter sets where an earlier tenant\'s set died before the mismatching end was built (address reservation).", "C03": "Every real node of every simulated run (fresh or restored any number of times, honest or substituted well-formed inbound elements, real or independent-implementation peer) is shadowed step by step by an independent executable specification: start() bytes and finish() key / ReflectionThwarted must equal the model\'s for the scalar the node itself reports.", "C05": "A simulated adversary delivers malformed element encodings (14 symbolic classes, random strings of every length, dense windows over all (y,sign) of toy curves and all strings of 1-2 byte toy fields stratified on the run index, elements of other groups, strings offered twice in a row) to fresh and restored victims through finish() and to bytes_to_element(); oracle = the model\'s strict decoder (only-if direction) and re-encoding equality. Found four classes of wrongly accepted Ed25519 strings on the pinned tree (fixed in /repo). Extension faults include framing tails (LF, CRLF, NUL, \'=\').", "C06": "1-3 victims (A/B/S, fresh or restored, every group kind) receive mis-labelled messages (own side, other flavour, all 256 side-byte values stratified over the run index, missing label, empty message) and reflections of their own element under the acceptable label, also in re-encoded/extended form; oracle from the statement (no key; OffSides for A/B-labelled mismatches; ReflectionThwarted for the own element). Reflection variants include the own element as a minimal-length integer (leading zero octets stripped) and with framing tails.", "C07": "Seeded call histories of length <= 10 over 10 call symbols (incl. start with failing entropy, six kinds of finish, serialize, restore-and-continue) on one instance chain - run indices 0..3329 walk all histories of length <= 3 for the three classes - checked call by call against a specification automaton that demands exactly what the statement fixes and is permissive where it is silent; distinct histories of length <= 4 reached are counted. Random histories also contain a nested start() (the entropy function re-enters start() on the same instance) and calls aborted at an arbitrary library line by an injected exception.", "C08": "Three twins with identical arguments and entropy stream - one with 0-6 persist/crash/recover cycles at generated points (12% as restarts of the whole simulated process next to a neighbour session of the other class family), one serialized but never restored, one untouched - receive the same inbound bytes (valid, reflection of the original message, wrong side, malformed, identity): same key or same exception class; serialize() draws no entropy (seam and os.urandom tripwire), never raises, is repeatable, printable-ASCII JSON, JSON-equal along the chain; an honest restore is never refused. In 15% of the runs serialize()/from_serialized()/finish() calls are aborted at an arbitrary library line by an injected MemoryError/KeyboardInterrupt: an aborted serialize() must leave the instance as it was, aborted restores are repeated, an aborted finish() is followed by restore-and-retry.", "C09": "State persisted under (role, parameters) is recovered under every other role and under parameter sets differing in one named way (other shipped set, other / exchanged / boundary-shifted M,N,S seeds, other generator, other modulus, other custom group; parameter-set objects optionally built and freed per session); oracle: raises with the named class, or - when nothing the role uses differs - returns an instance that derives the twin\'s key and refuses the original message reflected. One open known finding (generator not fingerprinted).", "C10": "Rolling upgrade/downgrade in the simulated deployment: sessions started by the reference implementation and persisted by an independent encoder of the released format (random key order / whitespace) are resumed by the real from_serialized() and must finish to the predicted key; rows written by the real code are parsed by a strict decoder of the released format and resumed by the model; 12 frozen rows of the pinned tree finish to frozen keys. 10% of the runs build parameter sets per session (address reuse simulated deterministically), 6% run every simulated process under python -O.", "C11": "Entropy accounting over simulated histories (only start() draws, only from the seam; tripwire on os.urandom / random._urandom), range and provenance of the scalar under adversarial streams (boundary values, forced re-draws, stuck RNG, refused second start(), at most 4096 draws), and a seam sweep: ALL first-round answers of the entropy seam (all second-round answers under sampled rejected prefixes; all answers after 2..300 rejected ones) for seeded and index-stratified ranges of width <= 65535, for random_scalar and for start() on small groups, counting answers per returned value (equal, non-zero, acceptance >= 1/2). Seam sweeps are also run re-entrantly: another draw over another range runs to completion inside the first entropy read.", "C16": "Worlds of 2-8 concurrent sessions (mixed roles, parameter sets incl. several custom sets over one shared group object) run under two schedules - cooperative interleavings of API calls, or one real thread per session under a baton scheduler with PRNG-chosen pre-emption at line events or at (source line, k-th hit) sites in library frames, library locks replaced by cooperative ones - in a forked child of a pristine process; every session is re-run alone in its own freshly forked pristine child; messages, keys, blobs must be identical and shared group/parameter objects unchanged. Cooperative worlds also nest other sessions\' calls inside a session\'s entropy read, abort calls of neighbour sessions at an arbitrary library line (injected exception), and give every session a private parameter-set object whose address is reused after its death."}')
+
+
 def main():
     checks = []
     for pid in sorted(CLAIMED):
         cat, ref, text, note = CLAIMED[pid]
+        text = TEXT_OVERRIDE.get(pid, text)
         checks.append({
             "property_id": pid,
             "quick_cmd": "timeout 900 ./check %s --tier quick" % pid,
